@@ -3,10 +3,17 @@ import os, sys, json, time, re, subprocess, hashlib, random, fcntl, shutil, glob
 from fractions import Fraction
 
 VERIF = os.path.dirname(os.path.dirname(os.path.abspath(__file__)))
-COQ = os.path.join(VERIF, "coq")
+# VERIF_SCRATCH=<dir> (mutation testing only): work on a private copy of coq/ and write evidence and replays
+# there, so that a run against a patched EPGPY_REPO neither rewrites the shared Gen/*.v nor the committed evidence
+SCRATCH = os.environ.get("VERIF_SCRATCH")
+_ROOT = SCRATCH or VERIF
+if SCRATCH and not os.path.isdir(os.path.join(SCRATCH, "coq")):
+    os.makedirs(SCRATCH, exist_ok=True)
+    subprocess.run(["cp", "-a", os.path.join(VERIF, "coq"), os.path.join(SCRATCH, "coq")], check=True)
+COQ = os.path.join(_ROOT, "coq")
 CASES = os.path.join(COQ, "Cases")
-EVID = os.path.join(VERIF, "evidence")
-REPLAYS = os.path.join(VERIF, "replays")
+EVID = os.path.join(_ROOT, "evidence")
+REPLAYS = os.path.join(_ROOT, "replays")
 KNOWN = os.path.join(VERIF, "known_findings.json")
 NPROC = min(16, os.cpu_count() or 4)
 
@@ -32,8 +39,8 @@ def sh(cmd, timeout=None, cwd=None, env=None):
 
 class BuildLock:
     def __enter__(self):
-        os.makedirs(os.path.join(VERIF, "build"), exist_ok=True)
-        self.f = open(os.path.join(VERIF, "build", ".lock"), "w")
+        os.makedirs(os.path.join(_ROOT, "build"), exist_ok=True)
+        self.f = open(os.path.join(_ROOT, "build", ".lock"), "w")
         fcntl.flock(self.f, fcntl.LOCK_EX)
         return self
 
